@@ -1126,15 +1126,29 @@ void rfbNewFramebuffer(rfbScreenInfoPtr screen, char *framebuffer,
   rfbBool format_changed = FALSE;
   rfbClientIteratorPtr iterator;
   rfbClientPtr cl;
+  rfbClientPtr *locked = NULL;
+  int nLocked = 0, maxLocked = 0, i;
   int old_width = screen->width, old_height = screen->height;
   extern void rfbScalingSetup(rfbClientPtr cl, int width, int height);
   extern rfbClientIteratorPtr
     rfbGetClientIteratorWithClosed(rfbScreenInfoPtr rfbScreen);
 
-  /* Lock out client reads. */
+  /* Lock out client reads. Remember exactly which clients were locked and keep a reference on
+     each of them until they are unlocked again: a client that is closed meanwhile then waits in
+     rfbClientConnectionGone() instead of being unlinked with its sendMutex still held here, and
+     a connection accepted meanwhile is not unlocked without having been locked. */
   iterator = rfbGetClientIterator(screen);
   while ((cl = rfbClientIteratorNext(iterator))) {
+      if (nLocked == maxLocked) {
+          rfbClientPtr *grown = (rfbClientPtr *)realloc(locked, (maxLocked + 16) * sizeof(rfbClientPtr));
+          if (grown == NULL)
+              break;
+          locked = grown;
+          maxLocked += 16;
+      }
       LOCK(cl->sendMutex);
+      rfbIncrClientRef(cl);
+      locked[nLocked++] = cl;
   }
   rfbReleaseClientIterator(iterator);
 
@@ -1231,11 +1245,15 @@ void rfbNewFramebuffer(rfbScreenInfoPtr screen, char *framebuffer,
 
     TSIGNAL(cl->updateCond);
     UNLOCK(cl->updateMutex);
-
-    /* Swapping frame buffers finished, re-enable client reads. */
-    UNLOCK(cl->sendMutex);
   }
   rfbReleaseClientIterator(iterator);
+
+  /* Swapping frame buffers finished, re-enable client reads. */
+  for (i = 0; i < nLocked; i++) {
+    UNLOCK(locked[i]->sendMutex);
+    rfbDecrClientRef(locked[i]);
+  }
+  free(locked);
 
   /* Re-enable cursor drawing into framebuffer */
   UNLOCK(screen->cursorMutex);
